@@ -1,9 +1,10 @@
 #!/usr/bin/env bash
 # seed_confirm.sh <src dir with patch.diff + demo> <demo file> <intended path in repo> <go test pkg> <-run pattern> [tags]
-# Confirms in the scratch worktree /tmp/seedrun: builds with the patch, demo passes without and fails with the patch.
+# Confirms in the scratch worktree $SEEDRUN (default /tmp/seedrun): builds with the patch, demo passes without and fails with the patch.
 set -u
 SRC="$1"; DEMO="$2"; DEST="$3"; PKG="$4"; PAT="$5"; TAGS="${6:-verif}"
-W=/tmp/seedrun
+W="${SEEDRUN:-/tmp/seedrun}"
+[ -d "$W" ] || git -C /repo worktree add -q --detach "$W" HEAD
 export GOFLAGS=-mod=mod GOPROXY=off GOSUMDB=off GOTOOLCHAIN=local
 cd "$W" && git checkout -q -- . && git clean -fdq src >/dev/null 2>&1
 cp "$SRC/$DEMO" "$W/$DEST"
